@@ -107,9 +107,10 @@ GeneralCalcs == {Fn("add", <<A, B>>), Fn("neg", <<A>>), Fn("mul", <<D, Lit(2)>>)
 GeneralSlices == {Slice(0, -1), Slice(1, -1), Slice(0, 2), Slice(1, 2), Slice(0, 0), Slice(0, 1), Slice(2, 5)}
 
 FocusPreds == {Cmp("eq", A, Lit(0)), Cmp("le", B, A)}
-FocusSorts == {TotalAB, <<Term(B, TRUE)>>, <<Term(A, FALSE)>>}
+FocusSorts == {TotalAB, <<Term(B, TRUE)>>, <<Term(A, FALSE)>>,
+               <<Term(B, FALSE)>>, <<Term(B, FALSE), Term(A, TRUE)>>}    \* a sub-list / a permutation of TotalAB's terms
 FocusCalcs == {Fn("add", <<A, B>>)}
-FocusSlices == {Slice(0, 1), Slice(1, 3), Slice(1, -1)}
+FocusSlices == {Slice(0, 1), Slice(1, 3), Slice(1, -1), Slice(1, 2)}
 
 UnaryMenu(cols, h) ==
     LET preds == IF MenuKind = "focus" THEN FocusPreds ELSE GeneralPreds
@@ -128,9 +129,14 @@ UnCall(op) == [f |-> "un", op |-> op]
 
 JoinPreds(cols) == {p \in {PLit(TRUE), Cmp("le", A, CC), Cmp("ne", B, A), Cmp("eq", B, CC)} : ReqP(p) \subseteq cols}
 
+\* a relation that the join branch cannot merge into its FROM clause (it stays a
+\* sub-query), so that joining it with ITSELF is legitimate without aliasing
+Unstrippable(r) == r.k = "sel" /\ (r.dedup \/ HasSort(r) \/ HasSlice(r) \/ IsCompound(r))
 BinaryCalls(r) ==
-    IF MenuKind = "focus" THEN {}
-    ELSE (UNION {{[f |-> "join", rhs |-> n, p |-> p] :
+    IF MenuKind = "focus"
+    THEN {[f |-> "chain", rhs |-> "T3"], [f |-> "join", rhs |-> "T2", p |-> PLit(TRUE)]}
+           \cup (IF Unstrippable(r) THEN {[f |-> "joinself"]} ELSE {})
+    ELSE (IF Unstrippable(r) THEN {[f |-> "joinself"]} ELSE {}) \cup (UNION {{[f |-> "join", rhs |-> n, p |-> p] :
                      p \in JoinPreds(Cols(r) \cup (IF IsErr(OperandTree(n)) THEN {} ELSE Cols(OperandTree(n))))}
                  : n \in AllOperands})
            \cup {[f |-> "joinl", lhs |-> n] : n \in {"T2", "T3pa", "T3ss", "T2dd"}}
@@ -142,6 +148,7 @@ CallResult(c, r) ==
       [] c.f = "getitem" -> Err("TypeError")
       [] c.f = "join"  -> Bind(OperandTree(c.rhs), LAMBDA o : JoinRel(r, o, c.p, TRUE, FALSE))
       [] c.f = "joinl" -> Bind(OperandTree(c.lhs), LAMBDA o : JoinRel(o, r, PLit(TRUE), TRUE, FALSE))
+      [] c.f = "joinself" -> JoinRel(r, r, PLit(TRUE), TRUE, FALSE)
       [] c.f = "chain" -> Bind(OperandTree(c.rhs), LAMBDA o : ApplyBinary(ChainOp, r, o))
       [] c.f = "chainl" -> Bind(OperandTree(c.lhs), LAMBDA o : ApplyBinary(ChainOp, o, r))
       [] c.f = "xfer"  -> TransferTo(r, c.dest)
@@ -152,6 +159,7 @@ CallRows(c, r, rows) ==
     CASE c.f = "un" -> ApplyOp(c.op, rows)
       [] c.f = "join"  -> JoinRows(rows, OperandRows(c.rhs), CommonCols(Cols(r), Cols(OperandTree(c.rhs))), c.p)
       [] c.f = "joinl" -> JoinRows(OperandRows(c.lhs), rows, CommonCols(Cols(r), Cols(OperandTree(c.lhs))), PLit(TRUE))
+      [] c.f = "joinself" -> JoinRows(rows, rows, CommonCols(Cols(r), Cols(r)), PLit(TRUE))
       [] c.f = "chain" -> rows \o OperandRows(c.rhs)
       [] c.f = "chainl" -> OperandRows(c.lhs) \o rows
       [] c.f = "xfer"  -> rows
@@ -230,6 +238,7 @@ RawStep(c, t) ==
     CASE c.f = "un"    -> Un(c.op, t)
       [] c.f = "join"  -> Bin(JoinOp(c.p, CommonCols(Cols(t), Cols(OperandTree(c.rhs)))), t, OperandTree(c.rhs))
       [] c.f = "joinl" -> Bin(JoinOp(PLit(TRUE), CommonCols(Cols(t), Cols(OperandTree(c.lhs)))), OperandTree(c.lhs), t)
+      [] c.f = "joinself" -> Bin(JoinOp(PLit(TRUE), CommonCols(Cols(t), Cols(t))), t, t)
       [] c.f = "chain" -> Bin(ChainOp, t, OperandTree(c.rhs))
       [] c.f = "chainl" -> Bin(ChainOp, OperandTree(c.lhs), t)
       [] c.f = "xfer"  -> t
